@@ -10,7 +10,7 @@ import (
 
 func init() {
 	register(&propCheck{id: "C19", needV2: true, needRoot: true, run: checkC19,
-		explanation: "Decided statically on module v2: (1) FORMAT — v2's hash pre-image (Node.writeHashBytes and its length-prefix primitive) emits the same token kinds in the same order with the same operand roles as the pinned IAVL+ layout and as v1's writer, which are compared with each other; (2) TYPESTATE use-after-put — after a node is handed back to the pool (NodePool.Put / Tree.returnNode) no path of the function reads or writes through it, returns it or stores it (the pool zeroes the node and may hand it out again); (3) TYPESTATE stale-hash — every structural write to a node (key, value, size, height, child links; directly or through setLeft/setRight/calcHeightAndSize) happens on a node fresh from the pool, or after mutateNode(node) in the same function, or behind the `hash != nil ⇒ error` guard — otherwise a memoised hash survives a mutation; (4) DOM — a nil value is rejected before any effect. Added in the build round: v2 node codec layouts (FORMAT-v2-codec); v2 balance / rotate / insert tables; the root is never recycled by leaf eviction (TYPESTATE-root-not-evicted); FindMemoized (shard lookup for lazily loaded nodes) is a pure memoisation of Find (SIB-memoize). NOT decided: equality of hashes, contents and iteration with v1 and the model over histories and option combinations; SQLite behaviour."})
+		explanation: "Decided statically on module v2: (1) FORMAT — v2's hash pre-image (Node.writeHashBytes and its length-prefix primitive) emits the same token kinds in the same order with the same operand roles as the pinned IAVL+ layout and as v1's writer, which are compared with each other; (2) TYPESTATE use-after-put — after a node is handed back to the pool (NodePool.Put / Tree.returnNode) no path of the function reads or writes through it, returns it or stores it (the pool zeroes the node and may hand it out again); (3) TYPESTATE stale-hash — every structural write to a node (key, value, size, height, child links; directly or through setLeft/setRight/calcHeightAndSize) happens on a node fresh from the pool, or after mutateNode(node) in the same function, or behind the `hash != nil ⇒ error` guard — otherwise a memoised hash survives a mutation; (4) DOM — a nil value is rejected before any effect. Added in the build round: v2 node codec layouts (FORMAT-v2-codec); v2 balance / rotate / insert tables; the root is never recycled by leaf eviction (TYPESTATE-root-not-evicted); FindMemoized (shard lookup for lazily loaded nodes) is a pure memoisation of Find (SIB-memoize). NOT decided: equality of hashes, contents and iteration with v1 and the model over histories and option combinations; SQLite behaviour. Rules added in the later seeding rounds (each listed with what it decides in this file's rule table) are described in DESIGN.md §3 \"Third and fourth seeding rounds\" and Appendix C3–C5."})
 }
 
 func checkC19(c *Ctx) {
